@@ -42,6 +42,88 @@ type c03Case struct {
 	Body      []byte            `json:"body"`
 	Tags      []string          `json:"tags"` // what was done to the request (labels)
 	Dispatch  bool              `json:"reaches_dispatch"`
+	// Shm, when set, makes the case a pipe session of a client that advertises
+	// a real shared-memory segment and sends every request as a pointer into
+	// it; Off/Len replace the pointer's offset/length ("" = the true value).
+	Shm []c03ShmStep `json:"shm,omitempty"`
+}
+
+type c03ShmStep struct {
+	Off string `json:"off,omitempty"`
+	Len string `json:"len,omitempty"`
+}
+
+// shmPointerVal turns a generated token into the metadata value: a literal,
+// or an expression over the true value r and the segment size s.
+func shmPointerVal(tok string, r uint64, size int) string {
+	switch tok {
+	case "":
+		return fmt.Sprint(r)
+	case "r+1":
+		return fmt.Sprint(r + 1)
+	case "r-1":
+		return fmt.Sprint(r - 1)
+	case "s":
+		return fmt.Sprint(size)
+	case "s-r":
+		return fmt.Sprint(uint64(size) - r)
+	case "-r":
+		return fmt.Sprint(-int64(r))
+	case "wrap-r":
+		return fmt.Sprint(^uint64(0) - r + 1) // r + this == 2^64
+	}
+	return tok
+}
+
+var c03ShmToks = []string{"", "", "r+1", "r-1", "s", "s-r", "-r", "wrap-r", "0", "-1", "1", "4096", "65536", "9223372036854775807", "9223372036854775808", "18446744073709551615", "18446744073709551616", "+5", " 7", "0x10", "abc"}
+
+// runC03Shm is the child side of a shared-memory session.
+func runC03Shm(srv *vgirpc.Server, cfg c03Config, steps []c03ShmStep) (rep c03Reply) {
+	const size = 65536 + 1<<18
+	seg, err := vgirpc.ShmCreate(size)
+	if err != nil {
+		rep.OutOK, rep.ShmSkipped = true, true
+		return
+	}
+	defer seg.Close()
+	var body []byte
+	for i, st := range steps {
+		call := lib.CallSpec{Kind: "unary", Method: "u_str", Unary: &lib.UnaryScript{ID: lib.CallID(i), Outcome: "value", Value: fmt.Sprintf("v%d", i), Size: 300}}
+		call.Opts.Extra = [][2]string{{lib.KShmSegName, seg.Name()}, {lib.KShmSegSize, fmt.Sprint(size)}}
+		if cfg.Version != "" {
+			v := cfg.Version
+			call.Opts.ProtocolVersion = &v
+		}
+		req, _ := call.PipeBytes()
+		ss, derr := lib.SplitStreams(req)
+		if derr != nil || len(ss) != 1 || len(ss[0].Batches) != 1 {
+			panic("harness: request did not decode")
+		}
+		b := ss[0].Batches[0]
+		off, n, ok, werr := seg.AllocateAndWrite(b.Rec)
+		if werr != nil || !ok {
+			panic(fmt.Sprintf("harness: AllocateAndWrite ok=%v err=%v", ok, werr))
+		}
+		keys := append(append([]string{}, b.Meta.Keys()...), lib.KShmOffset, lib.KShmLength)
+		vals := append(append([]string{}, b.Meta.Values()...), shmPointerVal(st.Off, off, size), shmPointerVal(st.Len, uint64(n), size))
+		ptr := lib.WithMeta(lib.EmptyBatch(ss[0].Schema), keys, vals)
+		body = append(body, lib.EncodeStream(ss[0].Schema, ptr)...)
+	}
+	res := lib.RunPipe(srv, body)
+	rep.Panic = res.Panic
+	rep.OutOK = res.DecodeErr == nil
+	if res.DecodeErr != nil {
+		rep.OutErr = res.DecodeErr.Error()
+	}
+	rep.Streams = len(res.Streams)
+	if n := len(res.Streams); n > 0 {
+		for _, b := range res.Streams[n-1].Batches {
+			if b.Kind() == "data" && b.Rec.NumRows() == 1 && b.Rec.NumCols() == 1 {
+				rep.Last = fmt.Sprint(lib.Rows(b.Rec)[0][0])
+			}
+		}
+	}
+	return
 }
 
 var c03Key = []byte("c03-token-key-0123456789abcdef!!")
@@ -147,6 +229,8 @@ type c03Reply struct {
 	OutOK   bool   `json:"out_ok"`
 	OutErr  string `json:"out_err"`
 	Streams int    `json:"streams"`
+	Last       string `json:"last,omitempty"` // shm sessions: the value in the last response stream
+	ShmSkipped bool   `json:"shm_skipped,omitempty"`
 }
 
 // childC03 runs inside the sandbox child.
@@ -157,7 +241,9 @@ func childC03(payload []byte) []byte {
 	}
 	var rep c03Reply
 	srv, h := c03Server(c.Cfg)
-	if c.Transport == "pipe" {
+	if len(c.Shm) > 0 {
+		rep = runC03Shm(srv, c.Cfg, c.Shm)
+	} else if c.Transport == "pipe" {
 		res := lib.RunPipe(srv, c.Body)
 		rep.Panic = res.Panic
 		rep.OutOK = res.DecodeErr == nil
@@ -273,6 +359,23 @@ func genC03(t *rapid.T) c03Case {
 	}
 	if rapid.IntRange(0, 7).Draw(t, "nested?") == 0 {
 		return genC03Nested(t, c)
+	}
+	if c.Transport == "pipe" && rapid.IntRange(0, 5).Draw(t, "shm?") == 0 {
+		// a session over a real segment: pointers with hostile offsets/lengths,
+		// then a well-formed pointer request that must still be served
+		n := rapid.IntRange(1, 4).Draw(t, "shmsteps")
+		for i := 0; i < n; i++ {
+			st := c03ShmStep{}
+			if rapid.IntRange(0, 3).Draw(t, "shmbad") != 0 {
+				st.Off = c03ShmToks[rapid.IntRange(0, len(c03ShmToks)-1).Draw(t, "shmoff")]
+				st.Len = c03ShmToks[rapid.IntRange(0, len(c03ShmToks)-1).Draw(t, "shmlen")]
+			}
+			c.Shm = append(c.Shm, st)
+		}
+		c.Shm = append(c.Shm, c03ShmStep{})
+		c.Tags = append(c.Tags, "shm-session")
+		c.Dispatch = true
+		return c
 	}
 	methods := []string{"u_str", "u_void", "u_struct", "u_ser", "s_prod", "s_prod_h", "s_exch", "s_exch_h", "s_dyn", "__describe__", "__transport_options__", "nope"}
 	method := methods[rapid.IntRange(0, len(methods)-1).Draw(t, "method")]
@@ -680,14 +783,18 @@ func runC03(c c03Case) (out lib.Outcome) {
 		return
 	}
 	payload, _ := json.Marshal(&c)
-	rep := sandbox.Exec("c03", payload, 90*time.Second)
+	patience := 90 * time.Second
+	if len(c.Shm) > 0 {
+		patience = 30 * time.Second // at most five tiny requests: milliseconds of work
+	}
+	rep := sandbox.Exec("c03", payload, patience)
 	if rep.Died || rep.TimedOut {
 		switch {
 		case rep.OOM:
 			out.Label("oom")
 			out.Violate("C03/oom-declared-length", "server process died with out-of-memory (%s %s, tags %v)\n%s", c.Transport, c.Path, c.Tags, lib.Short(rep.Stderr, 1000))
 		case rep.TimedOut:
-			out.Violate(lib.Keyf("C03", "no-answer", c.Transport), "no answer within 90 s (%s %s, tags %v)", c.Transport, c.Path, c.Tags)
+			out.Violate(lib.Keyf("C03", "no-answer", c.Transport), "no answer within %v (%s %s, tags %v)", patience, c.Transport, c.Path, c.Tags)
 		default:
 			cause := "process died"
 			if strings.Contains(rep.Stderr, "stack overflow") {
@@ -727,6 +834,17 @@ func runC03(c c03Case) (out lib.Outcome) {
 		out.Violate(lib.Keyf("C03", "panic-escaped", where, cls), "panic escaped %s (%s, tags %v): %s", where, c.Path, c.Tags, lib.Short(first, 300))
 		return
 	}
+	if len(c.Shm) > 0 && !r.ShmSkipped {
+		// every request of the session is answered (error stream or result), the
+		// connection is not abandoned, and the closing well-formed request is served
+		want := fmt.Sprintf("v%d", len(c.Shm)-1)
+		if r.OutOK && r.Streams < len(c.Shm) {
+			out.Label("shm-session:closed-early") // a clean close is an allowed answer
+		}
+		if r.OutOK && (r.Streams > len(c.Shm) || r.Streams == len(c.Shm) && !strings.HasPrefix(r.Last, want)) {
+			out.Violate("C03/shm-session-derailed", "shared-memory session of %d pointer requests %+v: %d response streams, last value %q (want %d streams ending in %q...)", len(c.Shm), c.Shm, r.Streams, lib.Short(r.Last, 40), len(c.Shm), want)
+		}
+	}
 	if c.Transport == "pipe" {
 		if !r.OutOK {
 			out.Violate("C03/pipe-output-torn", "server output is not a sequence of complete IPC streams: %s (tags %v)", r.OutErr, c.Tags)
@@ -739,11 +857,11 @@ func runC03(c c03Case) (out lib.Outcome) {
 
 var propC03 = lib.Prop[c03Case]{
 	ID: "C03",
-	Rule: "structure-aware mutations of valid requests (framework metadata keys added with hostile values incl. location/shm/cancel/tokens, 0/2/5 rows, foreign schemas incl. nested dictionaries, wrapped `request` payloads valid/truncated/empty/foreign/nested up to 200 deep, ArrowSerializable payloads with a foreign inner schema, schema-exact requests whose dictionary index lies outside the dictionary or whose embedded ArrowSerializable payload has no/two rows, retyped, missing, extra or null columns or is not IPC, zero-row pointer batches, upload-URL requests in their own shape (a `count` column of the right or a wrong type, duplicated, with 0/1/2 rows, null/negative/huge counts, pointer metadata), byte-level flips/truncations/splices/length edits) on the pipe (followed by a valid call) and on every HTTP route (unary, /init, /exchange with own/foreign/garbled/swapped/missing tokens, upload-url, introspection, session delete, pages) with content codings right/wrong/unknown, wrong verbs and content types, under server configurations external/sticky/hook/version/upload; each case runs in a memory-limited child process. " +
+	Rule: "structure-aware mutations of valid requests (framework metadata keys added with hostile values incl. location/shm/cancel/tokens, 0/2/5 rows, foreign schemas incl. nested dictionaries, wrapped `request` payloads valid/truncated/empty/foreign/nested up to 200 deep, ArrowSerializable payloads with a foreign inner schema, schema-exact requests whose dictionary index lies outside the dictionary or whose embedded ArrowSerializable payload has no/two rows, retyped, missing, extra or null columns or is not IPC, zero-row pointer batches, pipe sessions over a real advertised segment whose pointer requests carry true, off-by-one, wrapping, negative, huge and non-numeric offsets/lengths before a closing well-formed pointer request, upload-URL requests in their own shape (a `count` column of the right or a wrong type, duplicated, with 0/1/2 rows, null/negative/huge counts, pointer metadata), byte-level flips/truncations/splices/length edits) on the pipe (followed by a valid call) and on every HTTP route (unary, /init, /exchange with own/foreign/garbled/swapped/missing tokens, upload-url, introspection, session delete, pages) with content codings right/wrong/unknown, wrong verbs and content types, under server configurations external/sticky/hook/version/upload; each case runs in a memory-limited child process. " +
 		"Oracle: the process survives, no panic escapes Serve/ServeHTTP, pipe output is complete IPC streams, HTTP has a status. Non-trivial: the request was not byte-mutated (it reaches dispatch).",
 	Gen:          genC03,
 	Run:          runC03,
-	Essential:    []string{"transport:pipe", "transport:http", "zero-row-pointer", "route:exchange", "wrap:deep", "shm-pointer", "foreign-schema", "nested", "upload-shape:rows0", "upload-shape:rows1"},
+	Essential:    []string{"transport:pipe", "transport:http", "zero-row-pointer", "shm-session", "route:exchange", "wrap:deep", "shm-pointer", "foreign-schema", "nested", "upload-shape:rows0", "upload-shape:rows1"},
 	EssentialMin: 500,
 	Assumptions:  []string{"bodies whose framing declares >16 MiB more than present are excluded by construction (finding C03/oom-declared-length) and counted"},
 }
